@@ -162,7 +162,7 @@ Proof.
   - intros p g. rewrite Hg. apply (r_pos _ _ _ R).
 Qed.
 
-Lemma step_err_rep : forall c w t o w' e, Rep c w t -> SInv t -> hname_ok (op_link_name o) ->
+Lemma step_err_rep : forall c w t o w' e, Rep c w t -> SInv t -> name_cond c (op_link_name c o) ->
   step c w o = (w', Err e) -> Rep c w' (s_tick t (s_nodes t)).
 Proof.
   intros c w t o w' e R I Hn H. pose proof (step_inv c w o (r_inv _ _ _ R) Hn) as I'. rewrite H in I'. cbn [fst] in I'.
